@@ -1,6 +1,6 @@
 (* Proofs/Text: the line-level theorems of C09, assembled from Proofs/TextRecords.v. *)
 From DnsV Require Import Model.Text Proofs.Quote Proofs.TextBase Proofs.TextNames Proofs.TextRecords.
-From DnsV Require Base.Text Model.Svcb Spec.SvcbWire.
+From DnsV Require Base.Text Model.Svcb Spec.SvcbWire Proofs.SvcbLib Proofs.Svcb.
 From Coq Require Import ZifyN ZifyNat ZifyBool.
 Open Scope N_scope.
 
@@ -295,4 +295,80 @@ Proof.
   split; [reflexivity|]. split; [vm_compute; reflexivity|]. split; [vm_compute; intros H; discriminate H|].
   eexists. split; [vm_compute; reflexivity|]. split; [vm_compute; reflexivity|].
   split; [vm_compute; reflexivity|]. vm_compute. intros H. discriminate H.
+Qed.
+
+(* non-vacuity for B/H: H*.Example.com:svc.example.com.:300:ab:1:port="443";alpn=h2|h3;no-default-alpn=
+   (':'-separated, wildcard owner, quoted value, parameters out of key order) satisfies the guard, is
+   outside the findings, is not in normal form, and goes round with a non-empty record list *)
+Definition svcb_ex_line : bytes := [72;42;46;69;120;97;109;112;108;101;46;99;111;109;58;115;118;99;46;101;120;97;109;112;108;101;46;99;111;109;46;58;51;48;48;58;97;98;58;49;58;112;111;114;116;61;34;52;52;51;34;59;97;108;112;110;61;104;50;124;104;51;59;110;111;45;100;101;102;97;117;108;116;45;97;108;112;110;61].
+
+Lemma svcb_example :
+  wf_line o_plain 7 svcb_ex_line /\
+  exists r, parse_line o_plain 7 svcb_ex_line = Ok r /\ finding_class o_plain 7 r = false /\
+    marshal o_plain r <> svcb_ex_line /\
+    exists r', parse_line o_plain 7 (marshal o_plain r) = Ok r' /\
+      convert true false r' = convert true false r /\ marshal o_plain r' = marshal o_plain r /\
+      convert true false r <> [].
+Proof.
+  split; [vm_compute; reflexivity|].
+  destruct (parse_line o_plain 7 svcb_ex_line) as [r|] eqn:E; [|vm_compute in E; discriminate E].
+  exists r. vm_compute in E. inversion E; subst r. clear E.
+  split; [reflexivity|]. split; [vm_compute; reflexivity|]. split; [vm_compute; intros H; discriminate H|].
+  eexists. split; [vm_compute; reflexivity|]. split; [vm_compute; reflexivity|].
+  split; [vm_compute; reflexivity|]. vm_compute. intros H. discriminate H.
+Qed.
+
+(* all library premises of the line-level theorems are jointly satisfiable: the toy address and base64
+   syntax of Proofs/Svcb.v (ex_orc), with every IsPrint false and no CIDR syntax *)
+Definition o_toy : toracles :=
+  mkTO (fun _ => false) Proofs.Svcb.ex_parse Proofs.Svcb.ex_print (fun _ => None) (fun _ _ => [])
+       Proofs.Svcb.ex_unshift Proofs.Svcb.ex_shift.
+
+Lemma contains_has_byte : forall c s, contains c s = Base.Text.has_byte c s.
+Proof. induction s as [|x t IH]; [reflexivity|]. cbn [contains Base.Text.has_byte]. rewrite IH. reflexivity. Qed.
+
+Lemma library_premises_satisfiable :
+  (forall a, wf_bytes a -> length a = 16%nat -> o_parse_ip o_toy (o_print_ip o_toy a) = Some a) /\
+  o_parse_ip o_toy [] = None /\
+  (forall a, contains 44 (o_print_ip o_toy a) = false) /\
+  svcb_library o_toy.
+Proof.
+  destruct Proofs.Svcb.oracle_hypotheses_satisfiable as (S1 & S2 & S3 & S4 & S5 & S6 & _).
+  cbn [Model.Svcb.parse_ip Model.Svcb.print_ip Model.Svcb.b64_dec Model.Svcb.b64_enc Proofs.Svcb.ex_orc] in *.
+  cbn [o_parse_ip o_print_ip o_b64_dec o_b64_enc o_toy].
+  split; [|split; [reflexivity|split]].
+  - intros a W L. destruct (Base.Text.ip_to4 a) as [b|] eqn:E.
+    + destruct (Proofs.Svcb.ip_to4_16 a b L E) as [Ea Lb]. subst a.
+      apply Proofs.Svcb.wf_app in W. destruct W as [_ Wb].
+      assert (P : Proofs.Svcb.ex_print (Base.Text.v4_prefix ++ b) = Proofs.Svcb.ex_print b).
+      { unfold Proofs.Svcb.ex_print. rewrite L, Lb, E. reflexivity. }
+      rewrite P. apply S3; assumption.
+    + apply S4; assumption.
+  - intros a. rewrite contains_has_byte. unfold Proofs.Svcb.ex_print.
+    destruct (length a =? 4)%nat; [apply Proofs.Svcb.ex_shift_clean; lia|].
+    destruct (Base.Text.ip_to4 a); [apply Proofs.Svcb.ex_shift_clean; lia|].
+    cbn [Base.Text.has_byte]. rewrite Proofs.Svcb.ex_shift_clean by lia. reflexivity.
+  - unfold svcb_library. cbn [o_parse_ip o_print_ip o_b64_dec o_b64_enc o_toy].
+    split; [exact S1|]. split; [exact S2|]. split; [exact S3|].
+    split; [intros a L W T; apply (S4 a L W T)|]. split; [exact S5|exact S6].
+Qed.
+
+(* a shape left outside the guard (Model/Text.v wf_recordb (RSvcb), wild_okb o false tgt), shown to be a
+   real failure of the round trip: Bx.example.com,*.*.svc.example.com,300,,1 - getdom drops one "*." from
+   the target when the line is read, MarshalText prints *.svc.example.com, and reading that drops the other *)
+Definition svcb_tgt_line : bytes := [66;120;46;101;120;97;109;112;108;101;46;99;111;109;44;42;46;42;46;115;118;99;46;101;120;97;109;112;108;101;46;99;111;109;44;51;48;48;44;44;49].
+
+Lemma svcb_wild_target_not_roundtrip : exists r r',
+  parse_line o_plain 7 svcb_tgt_line = Ok r /\ wf_lineb o_plain 7 svcb_tgt_line = false /\
+  finding_class o_plain 7 r = false /\
+  parse_line o_plain 7 (marshal o_plain r) = Ok r' /\
+  convert false false r' <> convert false false r.
+Proof.
+  destruct (parse_line o_plain 7 svcb_tgt_line) as [r|] eqn:E; [|vm_compute in E; discriminate E].
+  destruct (parse_line o_plain 7 (marshal o_plain r)) as [r'|] eqn:E'.
+  - exists r, r'. vm_compute in E. inversion E; subst r. clear E.
+    vm_compute in E'. inversion E'; subst r'. clear E'.
+    split; [reflexivity|]. split; [vm_compute; reflexivity|]. split; [vm_compute; reflexivity|].
+    split; [reflexivity|]. vm_compute. intros H. discriminate H.
+  - vm_compute in E. inversion E; subst r. vm_compute in E'. discriminate E'.
 Qed.
